@@ -2,6 +2,7 @@
 the pending services), and judge them against the Coq model."""
 import os
 import random
+import re
 import shutil
 import tempfile
 import traceback
@@ -40,11 +41,11 @@ def drive(case, rng, profile, test_ids=True, mutate=False, max_calls=80, script=
 
     def note(rec):
         for e in rec["log"]:
-            if e[0] == "notif" and e[1] == "SS":
-                pending.append(e[4])
-            if e[0] == "notif" and e[1] == "SF" and e[4] in pending:
-                pending.remove(e[4])
-                done.append(e[4])
+            if e[0] == "notif" and e[1] == 0 and e[2] == "SS":
+                pending.append(e[5])
+            if e[0] == "notif" and e[1] == 0 and e[2] == "SF" and e[5] in pending:
+                pending.remove(e[5])
+                done.append(e[5])
 
     def do(op):
         out["script"].append(op)
@@ -68,6 +69,26 @@ def drive(case, rng, profile, test_ids=True, mutate=False, max_calls=80, script=
         return out
 
     junk_p = profile.junk
+    reg_p = getattr(profile, "listeners", 0.0)
+    obs_p = getattr(profile, "observers", 0.0)
+    attached = []
+
+    def admin():
+        """registration / observer calls at an arbitrary point of the run"""
+        if reg_p and rng.random() < reg_p:
+            do(("register", rng.choice(["TS", "TF", "SS", "SF"]), rng.randint(0, 2)))
+        if obs_p and rng.random() < obs_p:
+            if attached and rng.random() < 0.4:
+                o = rng.choice(attached)
+                attached.remove(o)
+                do(("detach", o))
+            else:
+                o = rng.randint(0, 2)
+                attached.append(o)
+                do(("attach", o))
+
+    for _ in range(3):
+        admin()
     if junk_p and rng.random() < junk_p:
         do(("finish", 0))                       # premature: nothing announced yet
     if not do(("start",)):
@@ -75,6 +96,7 @@ def drive(case, rng, profile, test_ids=True, mutate=False, max_calls=80, script=
     n = 0
     while pending and n < max_calls and out["exc"] is None:
         n += 1
+        admin()
         if junk_p and rng.random() < junk_p:
             c = rng.random()
             if c < 0.3 and done:
@@ -102,17 +124,27 @@ def drive(case, rng, profile, test_ids=True, mutate=False, max_calls=80, script=
     return out
 
 
-def judge_cases(cases_with_runs, workdir, jobs=8):
-    """cases_with_runs: list of (case, drive-result).  Returns list of verdict strings."""
+def judge_cases(cases_with_runs, workdir, jobs=8, proj="P_full", mon="mon_true"):
+    """cases_with_runs: list of (case, drive-result).  Returns list of verdict dicts
+    (see PFDL.Monitors.verdict)."""
     items = []
     for k, (case, dr) in enumerate(cases_with_runs):
         I = Interner()
         c = coqeval.coq_runcase(I, case, dr["script"])
         tr = pfdl_ast.coq_list([coqeval.coq_callrec(I, r) for r in dr["trace"]])
         defs = "Definition c%d : runcase := %s.\nDefinition i%d : list callrec := %s.\n" % (k, c, k, tr)
-        items.append((defs, "judge c%d i%d" % (k, k)))
-    raw = coqeval.eval_many(items, workdir, jobs=jobs)
-    return [coqeval.parse_result(r) for r in raw]
+        items.append((defs, "let v := judge_with %s %s c%d i%d in (v_model v, v_disagree v, v_full_disagree v, v_mon_impl v, v_mon_model v)" % (proj, mon, k, k)))
+    raw = coqeval.eval_many(items, workdir, jobs=jobs, header=coqeval.HEADER_MON)
+    out = []
+    for r in raw:
+        t = coqeval.parse_result(r)
+        m = re.match(r"^\((\d+), (None|Some \d+), (None|Some \d+), (true|false), (true|false)\)$", t)
+        if not m:
+            raise RuntimeError("unparsable verdict: " + t)
+        opt = lambda x: None if x == "None" else int(x.split()[1])
+        out.append({"model": int(m.group(1)), "disagree": opt(m.group(2)), "full_disagree": opt(m.group(3)),
+                    "mon_impl": m.group(4) == "true", "mon_model": m.group(5) == "true"})
+    return out
 
 
 def model_trace(case, script, workdir):
@@ -126,31 +158,40 @@ if __name__ == "__main__":
     import sys
     seed = int(sys.argv[1]) if len(sys.argv) > 1 else 1
     n = int(sys.argv[2]) if len(sys.argv) > 2 else 20
-    prof = gen_run.Profile()
+    kw = eval(sys.argv[3]) if len(sys.argv) > 3 else {}
+    test_ids = kw.pop("test_ids", True)
+    mutate = kw.pop("mutate", False)
+    prof = gen_run.Profile(**kw)
     wd = scratch_dir()
     os.chdir(wd)
     todo = []
     for i in range(n):
         rng = random.Random(seed * 100003 + i)
         case = gen_run.gen_case(rng, prof)
-        dr = drive(case, rng, prof)
+        dr = drive(case, rng, prof, test_ids=test_ids, mutate=mutate)
         if not dr["valid"]:
             print("INVALID", i, dr["stdout"][:300], dr["exc"])
             print(dr["text"])
             continue
         todo.append((i, case, dr))
-    verdicts = judge_cases([(c, d) for _, c, d in todo], wd)
+    verdicts = judge_cases([(c, d) for _, c, d in todo], wd, proj=("P_C15" if mutate else "P_full"))
+    bad = 0
     for (i, case, dr), v in zip(todo, verdicts):
-        print(i, v, "exc=", dr["exc"] and dr["exc"][:3], "calls=", len(dr["script"]))
-        if not v.startswith("(0"):
+        ok = v["model"] == 0 and v["disagree"] is None and dr["exc"] is None
+        if not ok:
+            bad += 1
+            print(i, v, "exc=", dr["exc"] and dr["exc"][:3], "calls=", len(dr["script"]))
+        if not ok and bad == 1:
             print(dr["text"])
             print("script", dr["script"])
             for r in dr["trace"]:
                 print("   ", {k: v2 for k, v2 in r.items() if k != "log"})
                 for e in r["log"]:
                     print("       ", e)
+            if dr["exc"]:
+                print(dr["exc"][-1])
             mt, I = model_trace(case, dr["script"], wd)
-            print("MODEL", mt[:3000])
-            print("names", I.rev)
-            break
+            print("MODEL", mt[:6000])
+            print("names", list(enumerate(I.rev)))
+    print("cases", len(todo), "bad", bad)
     shutil.rmtree(wd, ignore_errors=True)
